@@ -153,7 +153,7 @@ def run(ctx):
         "distinct_nontrivial": res["distinct_nontrivial"] + srv["distinct_nontrivial"],
         "rule": "behaviours = every path of UserDBGen with exactly MaxOps operations for each exhaustive alphabet (%s) plus "
                 "TLC -simulate paths; operations: POST with a field subset of the classes none / one / all-but-one / all and a "
-                "value class of {min,-1,0,1,max}, POST with mismatching UIDs, 50 malformed requests (6 kinds), DELETE, close+reopen, "
+                "value class of {min,-1,0,1,max}, POST with mismatching UIDs, 52 malformed requests (7 kinds), DELETE, close+reopen, "
                 "usage upload; after every step GET u1, GET u2, LIST are compared with the model's store. non-trivial = an "
                 "accepted write of a proper subset of the fields, or a rejected request / reopen after an accepted write; "
                 "distinct = distinct operation lists. connect: every distinct record of the expected stores, non-trivial = "
